@@ -153,7 +153,8 @@ impl Ctx {
     pub fn violation(&mut self, oracle: &str, sig: &str, workload: &str, case: u64, detail: Value) {
         self.violation_count += 1;
         eprintln!("VIOLATION-SHARD {} oracle={} sig={} at {}#{}", self.property, oracle, sig, workload, case);
-        if self.violations.len() < MAX_VIOLATIONS_KEPT {
+        let same_sig = self.violations.iter().filter(|v| v.sig == sig).count();
+        if self.violations.len() < MAX_VIOLATIONS_KEPT && same_sig < 4 {
             self.violations.push(Violation {
                 oracle: oracle.to_string(),
                 sig: sig.to_string(),
